@@ -260,6 +260,21 @@ def extract(func, loops=None, overrides=None, vc=None, module_overrides=None):
     return new, info
 
 
+class Poison:
+    """Value of a loop-carried local that the sidecar does not declare."""
+
+    def __init__(self, what):
+        object.__setattr__(self, '_what', what)
+
+    def _no(self, *a, **k):
+        raise Unsupported(
+            f'{object.__getattribute__(self, "_what")} is read before being '
+            'assigned in the cut loop body but is not declared in the sidecar')
+    __getattr__ = __call__ = __bool__ = __eq__ = __ne__ = __and__ = _no
+    __or__ = __invert__ = __iter__ = __len__ = __getitem__ = __hash__ = _no
+    __rand__ = __ror__ = __xor__ = __rxor__ = __str__ = __repr__ = _no
+
+
 class LoopVC:
     """Run-time side of the cut: proves / assumes invariants.
 
@@ -296,14 +311,16 @@ class LoopVC:
         spec = self.specs[k]
         L = dict(L)
         names = spec['names']
-        declared = set(spec['vars'])
-        if set(names) != declared:
-            raise Unsupported(
-                f'{self.fname}: loop {k} stores {sorted(names)} but the '
-                f'sidecar declares {sorted(declared)}')
         new = dict()
         for n in names:
-            new[n] = spec['vars'][n](self.world, L)
+            if n in spec['vars']:
+                new[n] = spec['vars'][n](self.world, L)
+            else:
+                # a local the sidecar does not know (e.g. introduced by a
+                # refactoring): sound as long as the body assigns it before
+                # reading it; any use of the poison value stops the check as
+                # unsupported, never as proved
+                new[n] = Poison(f'{self.fname}: loop {k} local `{n}`')
         L.update(new)
         # objects mutated in place by the loop body (e.g. `zk.append(z)`)
         for n, fn in spec.get('mutated', {}).items():
